@@ -34,14 +34,16 @@ fn phase_ops(scale: usize, seed: u64) -> (u64, u64) {
         } else if scale >= 5 {
             &[1, 2, 3, 5, 9, 16, 33, 64, 65, 130]
         } else {
-            &[1, 2, 3, 5, 9]
+            // ... plus one window of 40 for a handful of calls (a buffer that is allocated differently above
+            // some size is at least constructed, fed through its first reads and cloned under the interpreter)
+            &[1, 2, 3, 5, 9, 40]
         };
         for &n in periods {
             let p = variant(kind, n);
             let mut rng = Rng::derive(seed, kind as u64, n as u64);
             let mut inst = Inst::new(&p);
             let mut clones: Vec<Inst> = Vec::new();
-            let steps = (3 * p.max_period() + 3).max(8) * scale;
+            let steps = if scale < 5 && n == 40 { 12 } else { (3 * p.max_period() + 3).max(8) * scale };
             for i in 0..steps {
                 let hostile = i % 5 == 4;
                 let op = if kind.has_scalar() && i % 2 == 0 {
